@@ -7,7 +7,7 @@ from typing import List, Optional
 from ..model import FuncInfo, is_self_attr, norm, walk_no_nested
 from ..paths import conjuncts, implied_compares
 from ..report import Ctx
-from ..runner_rules import RUNNER, analyse_runner
+from ..runner_rules import RUNNER, analyse_runner, definite
 from ..selftest import Mutant
 
 PAR = 'pyphysim/simulations/parameters.py'
@@ -39,15 +39,21 @@ def check(ctx: Ctx) -> None:
     for (st, node) in it.exits:
         it._chk('return', node, st)
         ctx.instance('C05.a', q + ':return@%s' % type(node).__name__)
-    for c, st in it.save_sites:
-        it._chk('save:' + c.func.attr, c, st)
+    for c, st, sfn, ds in it.save_sites:
         ctx.instance('C05.a', q + ':' + c.func.attr)
         args = [norm(a) for a in c.args]
-        ok = len(args) >= 3 and args[0] == it.N and args[2] == it.R
-        ctx.obligation('C05.a', q + ':save-args:' + c.func.attr, ok, {'args': args, 'counter': it.N, 'results': it.R})
+        bad = [d for d in ds if definite(d)]
+        unk = [d for d in ds if d == 'unknown']
+        if unk and not bad:
+            ctx.error('C05.a: the analysis lost track of the counter/results given to %s(%s) in %s (cannot tell)'
+                      % (c.func.attr, ', '.join(args), sfn.qualname))
+        ok = not bad and len(args) >= 3
+        ctx.obligation('C05.a', q + ':save-args:' + c.func.attr, ok, {'args': args, 'in': sfn.qualname, 'differences': [str(d) for d in ds]})
         if not ok:
-            ctx.violation('C05.a', q, 'save call %s(%s) is not given (counter, params, merged results) = (%s, _, %s)'
-                          % (c.func.attr, ', '.join(args), it.N, it.R), fn.path, c.lineno, operand='save-args:' + c.func.attr)
+            ctx.violation('C05.a', q, 'save call %s(%s) in %s is not given (counter, params, merged results) holding the same '
+                          'number of repetitions (results - counter in %s)' % (c.func.attr, ', '.join(args), sfn.qualname,
+                                                                             sorted({str(d) for d in ds})),
+                          sfn.path, c.lineno, operand='save-args:' + c.func.attr)
     # returned counter/results
     for (st, node) in it.exits:
         if isinstance(node, ast.Return) and isinstance(node.value, ast.Tuple):
@@ -58,16 +64,23 @@ def check(ctx: Ctx) -> None:
                 ctx.violation('C05.a', q, 'returns %s, not (counter %s, merged results %s, ...)' % (elts, it.N, it.R),
                               fn.path, node.lineno, operand='returned')
     seen = set()
-    for where, msg, node, el in it.problems:
+    lost = [p for p in it.problems if not definite(p[4])]
+    for where, msg, node, el, d in it.problems:
+        if not definite(d):
+            continue
         k = where
         if k in seen:
             continue
         seen.add(k)
         ctx.violation('C05.a', q, 'counter and merged results disagree at %s: %s' % (where, msg), fn.path,
-                      getattr(node, 'lineno', fn.lineno), witness={'element': repr(el)}, operand=where.split(':')[0])
+                      getattr(node, 'lineno', fn.lineno), witness={'element': repr(el[:2])}, operand=where.split(':')[0])
+    if lost and not seen:
+        ctx.error('C05.a: the analysis lost track of the counter/results at %s (%s): cannot tell'
+                  % (sorted({p[0] for p in lost}), lost[0][1]))
     for w in ('loop-head', 'back-edge', 'loop-exit', 'return'):
         ctx.obligation('C05.a', q + ':' + w, not any(p[0] == w for p in it.problems),
-                       {'check': w, 'merge_sites': it.n_merge, 'increment_sites': it.n_inc})
+                       {'check': w, 'merge_sites': it.n_merge, 'increment_sites': it.n_inc,
+                        'helpers_analysed_by_summary': sorted(it.analysed - {fn.qualname})})
     # ------------------------------------------------------------------ C05.b
     ctx.rule('C05.b', 'loop test implies counter < self.rep_max and asks _keep_going(params, merged results, counter)', floor=1)
     ctx.instance('C05.b', q + ':while')
@@ -85,20 +98,24 @@ def check(ctx: Ctx) -> None:
                       fn.path, it.loop.lineno, operand='keep_going')
     # ------------------------------------------------------------------ C05.c
     ctx.rule('C05.c', 'every call site reaching the user iteration tolerates SkipThisOne', floor=2)
-    sites = {}
-    for c in it.run_sites:
-        sites[c.lineno] = c
-    unprotected = {n.lineno for (_, exc, n) in it.exc_exits if exc == 'SkipThisOne'}
-    # stable ordinal of the site: position among run sites in source order
-    for i, ln in enumerate(sorted(sites)):
-        role = 'inside-loop' if it.loop.lineno <= ln <= it.loop.end_lineno else 'before-loop'
+    # a site = a call, in the routine or in a helper analysed by summary, at which SkipThisOne may arrive; it is
+    # tolerated if a handler of the function containing it catches it, or every site of the callers up the chain does
+    # (an escape from the per-variation routine itself is the violation)
+    escaped = {getattr(n, 'lineno', 0) for (_, exc, n) in it.exc_exits if exc == 'SkipThisOne'}
+    for (fq, ln), (sfn, node, handled) in sorted(it.skip_sites.items()):
+        if sfn is fn:
+            role = 'inside-loop' if it.loop.lineno <= ln <= it.loop.end_lineno else 'before-loop'
+        elif handled:
+            role = 'helper:' + sfn.name.lstrip('_')
+        else:
+            continue            # passes through to the caller's site, which is listed itself
         construct = '%s:run-site[%s]' % (q, role)
         ctx.instance('C05.c', construct)
-        ok = ln not in unprotected
-        ctx.obligation('C05.c', construct, ok, {'call': norm(sites[ln])[:80], 'role': role})
+        ok = not (sfn is fn and ln in escaped)
+        ctx.obligation('C05.c', construct, ok, {'call': norm(node)[:80], 'role': role, 'function': sfn.qualname})
         if not ok:
             ctx.violation('C05.c', q, 'the %s call of the user iteration `%s` is not inside a try with a SkipThisOne '
-                          'handler: a skipped repetition there aborts simulate()' % (role, norm(sites[ln])[:70]),
+                          'handler: a skipped repetition there aborts simulate()' % (role, norm(node)[:70]),
                           fn.path, ln, operand='run-site:' + role)
     from ..dsf import auto_memo_check
     ctx.rule('C05.g', 'no auto-discovered lazily filled cache of the classes in the anchored modules can be stale at the exit of a public method (dependencies = what the fill expression reads, incl. mutating calls on held sub-objects)', floor=5)
@@ -238,24 +255,82 @@ def _check_axis_order(ctx: Ctx) -> None:
     # enumerator
     en = M.func(PAR, 'SimulationParameters.get_unpacked_params_list')
     ctx.instance('C05.e', 'SimulationParameters.get_unpacked_params_list')
-    key_loops = [n for n in walk_no_nested(en.node) if isinstance(n, ast.For) and norm(n.iter) in sorted_forms]
+    from ..astutil import single_locals
+    defs = single_locals(en)
+
+    def dict_fill_source(d: str) -> Optional[ast.AST]:
+        """The iterable S of the only loop `for i in S: d[i] = ...` that fills the local mapping d (else None)."""
+        ctor = [n for n in walk_no_nested(en.node) if isinstance(n, (ast.Assign, ast.AnnAssign))
+                and norm(n.targets[0] if isinstance(n, ast.Assign) else n.target) == d]
+        if len(ctor) != 1 or norm(ctor[0].value) not in ('OrderedDict()', 'dict()', '{}', 'collections.OrderedDict()'):
+            return None
+        fills = [(f, st) for f in walk_no_nested(en.node) if isinstance(f, ast.For) for st in ast.walk(f)
+                 if isinstance(st, ast.Assign) and isinstance(st.targets[0], ast.Subscript) and norm(st.targets[0].value) == d]
+        if len(fills) != 1 or norm(fills[0][1].targets[0].slice) != norm(fills[0][0].target):
+            return None
+        return fills[0][0].iter
+
+    def order_of(e: ast.AST, depth: int = 0) -> Optional[str]:
+        """'sorted' / 'set' / None (cannot tell): where the ORDER of the sequence e comes from."""
+        if depth > 8:
+            return None
+        if isinstance(e, ast.Starred):
+            return order_of(e.value, depth + 1)
+        if norm(e) in sorted_forms:
+            return 'sorted'
+        if is_self_attr(e, en.self_name or 'self') == SET:
+            return 'set'
+        if isinstance(e, ast.Name):
+            if e.id in defs:
+                src = dict_fill_source(e.id)
+                return order_of(src, depth + 1) if src is not None else order_of(defs[e.id], depth + 1)
+            return None
+        if isinstance(e, ast.Call):
+            f = norm(e.func)
+            if f in ('list', 'tuple', 'iter', 'reversed', 'enumerate') and len(e.args) == 1:
+                return order_of(e.args[0], depth + 1)
+            if f == 'sorted':
+                return 'sorted' if e.args and any(is_self_attr(a, en.self_name or 'self') == SET or order_of(a, depth + 1)
+                                                  for a in ast.walk(e.args[0])) else None
+            if f == 'set':
+                return 'set'
+            if f == 'map' and len(e.args) == 2:
+                return order_of(e.args[1], depth + 1)
+            if isinstance(e.func, ast.Attribute) and e.func.attr in ('keys', 'values', 'items') and not e.args:
+                return order_of(e.func.value, depth + 1)
+            return None
+        if isinstance(e, (ast.ListComp, ast.GeneratorExp)) and len(e.generators) == 1:
+            return order_of(e.generators[0].iter, depth + 1)
+        return None
+
     prod = [n for n in walk_no_nested(en.node) if isinstance(n, ast.Call) and norm(n.func) in ('itertools.product', 'product')]
-    oke = len(key_loops) == 1 and len(prod) == 1
-    detail = {'sorted_loops': len(key_loops), 'product_calls': len(prod)}
-    if oke:
-        # the dict filled in sorted order is what product() enumerates and what `keys` lists
-        d = None
-        for s in key_loops[0].body:
-            if isinstance(s, ast.Assign) and isinstance(s.targets[0], ast.Subscript) and \
-                    norm(s.targets[0].slice) == norm(key_loops[0].target):
-                d = norm(s.targets[0].value)
-        arg = norm(prod[0].args[0]) if prod[0].args else ''
-        oke = d is not None and d + '.values()' in arg
-        detail.update({'ordered_dict': d, 'product_arg': arg})
-        # ordered mapping type
-        mk = [n for n in walk_no_nested(en.node) if isinstance(n, ast.Assign) and norm(n.targets[0]) == d]
-        detail['dict_ctor'] = [norm(n.value) for n in mk]
-        oke = oke and bool(mk) and all(norm(n.value) in ('OrderedDict()', 'dict()', '{}', 'collections.OrderedDict()') for n in mk)
+    detail = {'product_calls': len(prod)}
+    if len(prod) != 1 or len(prod[0].args) != 1 or not isinstance(prod[0].args[0], ast.Starred):
+        ctx.error('C05.e: the enumerator is not one itertools.product(*iterables) call (cannot tell)')
+    axes_order = order_of(prod[0].args[0])
+    detail['product_arg'] = norm(prod[0].args[0])[:80]
+    detail['axes_order_from'] = axes_order
+    # the sequence that labels the components of one combination
+    comb_loops = [f for f in walk_no_nested(en.node) if isinstance(f, ast.For) and isinstance(f.target, ast.Name)
+                  and (f.iter is prod[0] or (isinstance(f.iter, ast.Name) and defs.get(f.iter.id) is prod[0]))]
+    labels: List[ast.AST] = []
+    if len(comb_loops) == 1:
+        comb = comb_loops[0].target.id
+        for n in ast.walk(comb_loops[0]):
+            if isinstance(n, ast.Call) and norm(n.func) == 'zip' and len(n.args) == 2 and norm(n.args[1]) == comb:
+                labels.append(n.args[0])
+            if isinstance(n, ast.Assign) and isinstance(n.targets[0], ast.Subscript) and isinstance(n.value, ast.Subscript) \
+                    and norm(n.value.value) == comb and isinstance(n.targets[0].slice, ast.Subscript) \
+                    and norm(n.targets[0].slice.slice) == norm(n.value.slice):
+                labels.append(n.targets[0].slice.value)
+    if len(labels) != 1:
+        ctx.error('C05.e: how the enumerator labels the components of a combination is not recognised (cannot tell)')
+    label_order = order_of(labels[0])
+    detail['labels'] = norm(labels[0])
+    detail['labels_order_from'] = label_order
+    if (axes_order is None or label_order is None) and 'set' not in (axes_order, label_order):
+        ctx.error('C05.e: cannot trace where the enumerator takes its axis order from: %s' % detail)
+    oke = axes_order == 'sorted' and label_order == 'sorted'
     ctx.obligation('C05.e', 'enumerator', oke, detail)
     if not oke:
         ctx.violation('C05.e', 'SimulationParameters.get_unpacked_params_list', 'the enumerator is not itertools.product '
